@@ -40,6 +40,8 @@ with open(os.path.join(root, "RESULTS.md"), "w") as fh:
     for sid, meta, hv in rows:
         checks = "; ".join("%s: %s %s" % (c, "caught" if v["exit"] == 1 else ("MISSED" if v["exit"] == 0 else "exit %d" % v["exit"]), ", ".join(v["violation_keys"][:2]))
                            for c, v in sorted(hv.get("checks", {}).items()))
+        if meta.get("obsolete"):
+            checks = "obsolete: " + meta["obsolete"]
         fh.write("| %s | %s | %s | %s/%s | %s |\n" % (sid, str(meta.get("summary", ""))[:160].replace("|", "/").replace("\n", " "),
                                                    str(meta.get("needs_to_manifest", ""))[:160].replace("|", "/").replace("\n", " "),
                                                    hv.get("demo_on_clean_tree_rc"), hv.get("demo_on_patched_tree_rc"), checks))
